@@ -66,11 +66,17 @@ OPEN_STATEMENTS = [
     'the implementation output; the harness enforces the reconstruction as a hard oracle whenever it holds (also for singular '
     'left blocks).  Named gap of the proof: after the sweep the right block is diagonal (needs the canonical constraints to be '
     'propagated through the double rotations).',
+    'Gaussian reconstruction, proved part: the whole column sweep (particle-hole swaps + double Givens rotations) preserves the inner '
+    'products of the rows, i.e. the first canonical constraint W1 W1^dagger + W2 W2^dagger = 1, in the exact regime '
+    '(gaussian_sweep_preserves_row_gram, double_rotation_preserves_row_gram, particle_hole_swap_preserves_row_gram); the second '
+    'constraint and the diagonal right block remain open.',
     'm = n case of givens_decomposition and unitarity of the returned left_unitary: proved (givens_square_case_product, '
     'givens_left_unitary_is_unitary).',
     'givens_matrix_elements_sound is stated in the exact regime (entries below EQ_TOLERANCE are exactly 0, an imaginary part of the '
     'relative phase (a/|a|) conj(b/|b|) below EQ_TOLERANCE is exactly 0 - the real / complex test of the repaired code 7be94873); '
-    'behaviour for 0 < |x| < 1e-8 is outside the theorem.',
+    'behaviour for 0 < |x| < 1e-8 is outside the theorem.  For pairs with a real ratio (Im(a conj b) = 0: real, purely imaginary, '
+    'common phase) the phase hypothesis is proved, not assumed (givens_matrix_elements_sound_real_ratio); the executable test '
+    'realExactB decides the hypothesis exactly (real_exact_test_decides).',
 ]
 
 # --------------------------------------------------------------------------- exact complex numbers
